@@ -635,10 +635,10 @@ fn compare(a: &Res, b: &Res) -> Option<(&'static str, String, String)> {
 }
 
 static TIMES: [std::sync::atomic::AtomicU64; 5] = [std::sync::atomic::AtomicU64::new(0), std::sync::atomic::AtomicU64::new(0), std::sync::atomic::AtomicU64::new(0), std::sync::atomic::AtomicU64::new(0), std::sync::atomic::AtomicU64::new(0)];
-fn run_history(env: &mut Env, g: &mut Group, h: &[Op]) -> Outcome {
+fn run_history(env: &mut Env, g: &mut Group, h: &[Op], skip: &[&str]) -> Outcome {
     use std::sync::atomic::Ordering::Relaxed;
     let t0 = std::time::Instant::now();
-    let o = run_history_inner(env, g, h);
+    let o = run_history_inner(env, g, h, skip);
     TIMES[0].fetch_add(t0.elapsed().as_micros() as u64, Relaxed);
     TIMES[1].fetch_add(o.t_us[0], Relaxed);
     TIMES[2].fetch_add(o.t_us[1], Relaxed);
@@ -646,7 +646,7 @@ fn run_history(env: &mut Env, g: &mut Group, h: &[Op]) -> Outcome {
     TIMES[4].fetch_add(1, Relaxed);
     o
 }
-fn run_history_inner(env: &mut Env, g: &mut Group, h: &[Op]) -> Outcome {
+fn run_history_inner(env: &mut Env, g: &mut Group, h: &[Op], skip: &[&str]) -> Outcome {
     let mut out = Outcome::default();
     let t_start = std::time::Instant::now();
     let v = g.v;
@@ -735,6 +735,9 @@ fn run_history_inner(env: &mut Env, g: &mut Group, h: &[Op]) -> Outcome {
     // ---- probes ----------------------------------------------------------
     let mut seen: HashSet<Class> = HashSet::new();
     for (i, p) in g.probes.iter().enumerate() {
+        if skip.contains(&p.op) {
+            continue;
+        }
         let (pc, npc) = plans[i];
         out.probes += 1;
         *out.plan_counts.entry(pc).or_insert(0) += 1;
@@ -782,9 +785,19 @@ struct Pass {
     /// (quick, thorough) depth for preload none / p12 / p650
     depth_small: (usize, usize),
     depth_big: (usize, usize),
+    /// probe operators not evaluated in this pass (each exclusion is justified by a listed finding)
+    skip_probes: &'static [&'static str],
+    /// variants not run in this pass
+    skip_variants: &'static [&'static str],
     why: &'static str,
 }
-const PASSES: &[Pass] = &[Pass { name: "full", ops: &ALL_OPS, depth_small: (3, 4), depth_big: (1, 2), why: "full alphabet" }];
+const PASSES: &[Pass] = &[
+    Pass { name: "residual", ops: &[Ins1, Ins2, Ins3, InsM], depth_small: (1, 2), depth_big: (0, 0), skip_probes: &[], skip_variants: &[], why: "all probes including `col = v AND col > v`; inserts only" },
+    Pass { name: "full", ops: &ALL_OPS, depth_small: (3, 4), depth_big: (1, 2), skip_probes: &["eq-and-gt-same-col"], skip_variants: &[], why: "full alphabet" },
+];
+fn pass_by_name(n: &str) -> &'static Pass {
+    PASSES.iter().find(|p| p.name == n).unwrap_or(&PASSES[0])
+}
 
 fn pattern(preload: Preload, h: &[Op]) -> String {
     format!("{}:{}", preload.name(), h.iter().map(|o| o.kind()).collect::<Vec<_>>().join(","))
@@ -800,7 +813,7 @@ struct Explorer<'a> {
     ctx: &'a Ctx,
     env: Env,
     /// memo of (variant, preload, history) -> classes, for minimisation (lookups only)
-    memo: HashMap<(&'static str, Preload, Vec<Op>), Vec<Class>>,
+    memo: HashMap<(&'static str, &'static str, Preload, Vec<Op>), Vec<Class>>,
     groups: HashMap<(&'static str, Preload), Group>,
 }
 
@@ -808,14 +821,14 @@ impl<'a> Explorer<'a> {
     fn group(&mut self, v: &'static Variant, p: Preload) -> &mut Group {
         self.groups.entry((v.name, p)).or_insert_with(|| Group::new(v, p))
     }
-    fn classes_of(&mut self, v: &'static Variant, p: Preload, h: &[Op]) -> Vec<Class> {
-        let key = (v.name, p, h.to_vec());
+    fn classes_of(&mut self, pass: &'static Pass, v: &'static Variant, p: Preload, h: &[Op]) -> Vec<Class> {
+        let key = (pass.name, v.name, p, h.to_vec());
         if let Some(c) = self.memo.get(&key) {
             return c.clone();
         }
         self.groups.entry((v.name, p)).or_insert_with(|| Group::new(v, p));
         let g = self.groups.get_mut(&(v.name, p)).unwrap();
-        let o = run_history(&mut self.env, g, h);
+        let o = run_history(&mut self.env, g, h, pass.skip_probes);
         let c: Vec<Class> = if o.illegal || o.setup_error.is_some() { vec![] } else { o.viols.iter().map(|x| x.class.clone()).collect() };
         if self.memo.len() < 200_000 {
             self.memo.insert(key, c.clone());
@@ -823,11 +836,11 @@ impl<'a> Explorer<'a> {
         c
     }
     /// greedy 1-minimal sub-history (and smallest preload) that still shows the class
-    fn minimize(&mut self, v: &'static Variant, p: Preload, h: &[Op], c: &Class) -> (Preload, Vec<Op>) {
+    fn minimize(&mut self, pass: &'static Pass, v: &'static Variant, p: Preload, h: &[Op], c: &Class) -> (Preload, Vec<Op>) {
         let mut p = p;
         let mut h = h.to_vec();
         while let Some(q) = p.smaller() {
-            if self.classes_of(v, q, &h).contains(c) {
+            if self.classes_of(pass, v, q, &h).contains(c) {
                 p = q;
             } else {
                 break;
@@ -840,7 +853,7 @@ impl<'a> Explorer<'a> {
             while i < h.len() {
                 let mut cand = h.clone();
                 cand.remove(i);
-                if wellformed(&cand, v.flavor) && self.classes_of(v, p, &cand).contains(c) {
+                if wellformed(&cand, v.flavor) && self.classes_of(pass, v, p, &cand).contains(c) {
                     h = cand;
                     changed = true;
                 } else {
@@ -853,7 +866,7 @@ impl<'a> Explorer<'a> {
                     let mut cand = h.clone();
                     cand.remove(j);
                     cand.remove(i);
-                    if wellformed(&cand, v.flavor) && self.classes_of(v, p, &cand).contains(c) {
+                    if wellformed(&cand, v.flavor) && self.classes_of(pass, v, p, &cand).contains(c) {
                         h = cand;
                         changed = true;
                         break 'outer;
@@ -887,10 +900,10 @@ fn report_outcome(rep: &mut Reporter, o: &Outcome) {
 struct C10;
 
 impl C10 {
-    fn one(&self, ex: &mut Explorer, rep: &mut Reporter, pass: &Pass, v: &'static Variant, p: Preload, h: &[Op], report: bool, violating: &mut HashSet<Vec<Op>>, illegal: &mut HashSet<Vec<Op>>) {
+    fn one(&self, ex: &mut Explorer, rep: &mut Reporter, pass: &'static Pass, v: &'static Variant, p: Preload, h: &[Op], report: bool, violating: &mut HashSet<Vec<Op>>, illegal: &mut HashSet<Vec<Op>>) {
         ex.group(v, p);
         let g = ex.groups.get_mut(&(v.name, p)).unwrap();
-        let o = run_history(&mut ex.env, g, h);
+        let o = run_history(&mut ex.env, g, h, pass.skip_probes);
         if let Some(e) = &o.setup_error {
             if report {
                 rep.violation("C10", "setup", &format!("C10/{}/setup/{}/error", v.name, p.name()), || json!({"pass": pass.name, "variant": v.name, "preload": p.name(), "history": hist_json(h)}), "setup succeeds", e);
@@ -923,11 +936,11 @@ impl C10 {
             return;
         }
         rep.count("violating_histories", 1);
-        let ex_memo_key = (v.name, p, h.to_vec());
+        let ex_memo_key = (pass.name, v.name, p, h.to_vec());
         ex.memo.insert(ex_memo_key, o.viols.iter().map(|x| x.class.clone()).collect());
         for viol in &o.viols {
             rep.outcome(&format!("{}:{}", viol.class.site, viol.class.kind));
-            let (mp, mh) = ex.minimize(v, p, h, &viol.class);
+            let (mp, mh) = ex.minimize(pass, v, p, h, &viol.class);
             let sig = signature(v, mp, &mh, &viol.class);
             let c = viol.class.clone();
             rep.violation(
@@ -956,7 +969,7 @@ impl C10 {
             rep.bound(&format!("pass:{}", pass.name), json!({"ops": pass.ops.iter().map(|o| o.name()).collect::<Vec<_>>(), "why": pass.why,
                 "depth_none_p12": ctx.tier.pick(pass.depth_small.0, pass.depth_small.1), "depth_p650": ctx.tier.pick(pass.depth_big.0, pass.depth_big.1)}));
             for v in VARIANTS {
-                if only_variant.as_deref().map(|x| x != v.name).unwrap_or(false) {
+                if only_variant.as_deref().map(|x| x != v.name).unwrap_or(false) || pass.skip_variants.contains(&v.name) {
                     continue;
                 }
                 for p in [Preload::None, Preload::P12, Preload::P650] {
@@ -1038,7 +1051,7 @@ impl C10 {
     }
 
     #[allow(clippy::too_many_arguments)]
-    fn extend(&self, ex: &mut Explorer, rep: &mut Reporter, pass: &Pass, v: &'static Variant, p: Preload, h: &mut Vec<Op>, len: usize, violating: &mut HashSet<Vec<Op>>, illegal: &mut HashSet<Vec<Op>>, since_check: &mut u32) {
+    fn extend(&self, ex: &mut Explorer, rep: &mut Reporter, pass: &'static Pass, v: &'static Variant, p: Preload, h: &mut Vec<Op>, len: usize, violating: &mut HashSet<Vec<Op>>, illegal: &mut HashSet<Vec<Op>>, since_check: &mut u32) {
         if rep_capped(rep) {
             return;
         }
@@ -1149,7 +1162,8 @@ impl Check for C10 {
         let h: Vec<Op> = case["history"].as_array().map(|a| a.iter().filter_map(|x| x.as_str().and_then(Op::parse)).collect()).unwrap_or_default();
         let mut env = Env::new(&ctx.scratch, ctx.opt("plant").is_some());
         let mut g = Group::new(v, p);
-        let o = run_history(&mut env, &mut g, &h);
+        let pass = pass_by_name(case["pass"].as_str().unwrap_or("full"));
+        let o = run_history(&mut env, &mut g, &h, pass.skip_probes);
         report_outcome(rep, &o);
         rep.case(vcore::util::hash_of(&(v.name, p, &h)), true);
         if let Some(e) = &o.setup_error {
